@@ -15,6 +15,8 @@ RULES = {
     'C17.R2': 'one-dimensional piece tables by order type: ReLU, leaky ReLU, hard tanh, hard shrink, hard sigmoid, threshold select the textbook piece in every order type of x_row vs the thresholds (breakpoints included)',
     'C17.R3': 'chains and heads: from_poly / class_characterization / inf_norm attach the outside value on label 0 and continue on label 1; argmax keeps the invariant (candidate a, current first maximum c) per node',
 }
+CONTROL_REV = '078b142'  # thorough tier: the rules must still report the defects found (and since fixed) on the original tree
+CONTROLS = [('C17.R2', 'partial_hard_shrink')]
 FLOORS = {'C17.R1': 6, 'C17.R2': 6, 'C17.R3': 4}
 EXPLANATION = ('The generator code is straight-line; its tree (decisions s·x_row <= t, leaves (slope, offset)) is reconstructed from the from_aff/add_child_node calls and the point '
                'writes on the affine forms, and interpreted over the finite set of order types of x_row relative to the thresholds under the generator\'s own assertions.')
